@@ -377,7 +377,8 @@ def __line_to_nums(line: str,
             collector(f)
         else:
             collector(check_to_int_range(
-                part, "line fragment", -1_000_000_000_000, 1_000_000_000_000))
+                part, "line fragment", -1_000_000_000_000_000,
+                1_000_000_000_000_000))
         idx = next_space
 
 
